@@ -34,7 +34,9 @@ AllKinds == {"match",        \* parses, a described change applies, result parse
 AllFaults == {"none", "read",        \* the target cannot be read
               "fsize",               \* file-size limit: writes of new content fail
               "rename", "kill_rename",  \* rename fails / process killed before the rename
-              "missing"}             \* an extra argument names a path that does not exist (given before file f)
+              "missing",             \* an extra argument names a path that does not exist (given before file f)
+              "rodir", "rodir_fsize"}  \* the directory is read-only for the (unprivileged) user: no temporary file can
+                                     \* be created next to the target; alone, or together with the file-size limit
 
 VARIABLES kinds,    \* <<kind of file 1, ...>>  (targets in processing order)
           flags,    \* [diff, print, skipImports, skipGenerated, verbose : BOOLEAN]
@@ -57,8 +59,8 @@ FaultAt(p) == fault.f = cur /\ fault.p = p
 Init ==
   /\ kinds \in UNION {[1..n -> Kinds] : n \in 1..MaxFiles}
   /\ flags \in Flags
-  /\ fault \in {[f |-> 0, p |-> q] : q \in FaultPoints \cap {"none", "fsize"}}
-               \cup {[f |-> i, p |-> q] : i \in 1..Len(kinds), q \in FaultPoints \ {"none", "fsize", "missing"}}
+  /\ fault \in {[f |-> 0, p |-> q] : q \in FaultPoints \cap {"none", "fsize", "rodir", "rodir_fsize"}}
+               \cup {[f |-> i, p |-> q] : i \in 1..Len(kinds), q \in FaultPoints \ {"none", "fsize", "missing", "rodir", "rodir_fsize"}}
                \cup {[f |-> i, p |-> q] : i \in 1..(Len(kinds) + 1), q \in FaultPoints \cap {"missing"}}
   /\ cur = 1 /\ stage = "discover"
   /\ disk = [i \in 1..Len(kinds) |-> "orig"]
@@ -150,7 +152,7 @@ Kill == stage' = "killed" /\ exit' = 137 /\ UNCHANGED <<cur, stdout, errs>>
 WriteTemp ==
   /\ stage = "emit" /\ ~flags.diff /\ ~flags.print
   /\ nwrites' = nwrites + 1
-  /\ IF fault.p = "fsize"          \* the limit stays in force: every write of new content fails
+  /\ IF fault.p \in {"fsize", "rodir", "rodir_fsize"}   \* the limit / the directory stays as it is: every in-place write fails
      THEN Err("write") /\ Log("log") /\ NextFile
      ELSE stage' = "rename" /\ UNCHANGED <<cur, stdout, errs>>
   /\ UNCHANGED <<kinds, flags, fault, disk, stderr, rerrs, touched, exit>>
@@ -218,12 +220,16 @@ Written(i) ==
   /\ kinds[i] \in {"match", "generated"} /\ ~(kinds[i] = "generated" /\ flags.skipGenerated) /\ ~ReadFails(i)
 Failed(i) == \/ kinds[i] \in {"unparseable", "replaceerr", "badresult"}
              \/ ReadFails(i)
-             \/ (fault.p = "fsize" /\ Written(i))
+             \/ (fault.p \in {"fsize", "rodir_fsize"} /\ Written(i))
              \/ (fault.f = i /\ fault.p = "rename" /\ ~flags.diff /\ ~flags.print
                  /\ kinds[i] \in {"match", "generated"} /\ ~(kinds[i] = "generated" /\ flags.skipGenerated))
+\* a read-only directory alone: whether the file can still be updated is the implementation's
+\* choice (the statement demands neither); if it is not updated that must be reported
+MayFail(i) == fault.p = "rodir" /\ Written(i)
 C16_Reported ==
   stage = "done" =>
      /\ \A i \in 1..N : (Failed(i) /\ Processed(i)) => exit # 0 /\ StderrOf(i) # <<>>
+     /\ \A i \in 1..N : (MayFail(i) /\ Processed(i) /\ disk[i] = "orig") => exit # 0 /\ StderrOf(i) # <<>>
      \* a path that could not be processed at all is reported, with its cause
      /\ (fault.p = "missing" => exit # 0 /\ \E k \in 1..Len(stderr) : stderr[k].what = "enumerate")
 C16_ExitZeroMeansAllDone ==
@@ -231,7 +237,7 @@ C16_ExitZeroMeansAllDone ==
 \* an unparseable target does not change what happens to any other file
 C16_Isolation ==
   stage = "done" /\ fault.p # "missing" =>
-     \A i \in 1..N : kinds[i] = "match" /\ ~Failed(i) /\ ~flags.diff /\ ~flags.print => disk[i] = "patched"
+     \A i \in 1..N : kinds[i] = "match" /\ ~Failed(i) /\ ~MayFail(i) /\ ~flags.diff /\ ~flags.print => disk[i] = "patched"
 
 \* C18: --skip-generated protects generated files, and only them
 C18_Protected ==
@@ -244,7 +250,7 @@ C18_OnlyThem ==
 \* ... a file without any marker is processed exactly as without the flag
 C18_PlainProcessed ==
   stage = "done" /\ fault.p # "missing" =>
-     \A i \in 1..N : kinds[i] = "match" /\ ~Failed(i) =>
+     \A i \in 1..N : kinds[i] = "match" /\ ~Failed(i) /\ ~MayFail(i) =>
         IF flags.diff THEN \E k \in 1..Len(stdout) : stdout[k] = [f |-> i, what |-> "diff"]
         ELSE IF flags.print THEN \E k \in 1..Len(stdout) : stdout[k] = [f |-> i, what |-> "patched"]
         ELSE disk[i] = "patched"
